@@ -13,74 +13,25 @@ Proof. vm_compute. reflexivity. Qed.
 Lemma gen_all_recognised : gen_unrecognised = 0%nat.
 Proof. vm_compute. reflexivity. Qed.
 
-Definition no_sjis (_ : list Z) : option bytes := None.
-Definition no_sjis_dec (_ : bytes) : option (list Z) := None.
 Definition int_arg (v : Z) : arg := mkarg (AInt v) false.
 
-(* defect (i), DESIGN section 6 #6: `ins_900(70000, 300, -200)` with signature `sbc` *)
-Definition narrowing_sig : list enc := [EInt 2 true false false; EInt 1 false false false; EInt 1 true false false].
-Definition narrowing_args : list arg := [int_arg 70000; int_arg 300; int_arg (-200)].
-Definition narrowing_read : list arg := [int_arg 4464; int_arg 44; int_arg 56].
-
-Definition narrowing_witness : Prop :=
-  sig_ok gen_codec true narrowing_sig = true /\
-  args_typed (fun _ => true) narrowing_sig narrowing_args = true /\
-  exists r st', encode_args no_sjis gen_codec true narrowing_sig narrowing_args None = Ok (r, st')
-                /\ r_warn r = [] /\ decode_call no_sjis_dec gen_codec narrowing_sig r = Ok (narrowing_read, []).
-
-Lemma narrowing_refuted : all_checked gen_codec = false -> narrowing_witness.
-Proof.
-  intro E. first [ vm_compute in E; discriminate E
-                 | unfold narrowing_witness; split; [vm_compute; reflexivity|]; split; [vm_compute; reflexivity|];
-                   eexists; eexists; split; [vm_compute; reflexivity|]; split; vm_compute; reflexivity ].
-Qed.
+(* every narrowing cast of encode_args is range-checked (repaired in 9774fb1; DESIGN section 6 #6) *)
+Lemma gen_all_checked : all_checked gen_codec = true.
+Proof. vm_compute. reflexivity. Qed.
 
 From TV Require Import Proofs.AbiNoPanic Proofs.IntrinsicPlace.
 
 Lemma gen_chars_covered : chars_covered gen_codec = true.
 Proof. vm_compute. reflexivity. Qed.
 
-(* defect (iv), DESIGN section 6 #13: signature `S_f`, the call (1, 2) passes the call check and panics *)
-Definition calltyping_params : list sparam := [PInt 83 false false; PPad 95; PFloat false].
-Definition calltyping_witness : Prop :=
-  exists sig, abi_of_params gen_codec false calltyping_params = Some sig /\
-    (* accepted although the second argument is not a float ... *)
-    check_call gen_codec sig [int_arg 1; int_arg 2] = true /\
-    is_panic (encode_args no_sjis gen_codec true sig [int_arg 1; int_arg 2] None) = true /\
-    (* ... and the well-typed call is rejected *)
-    check_call gen_codec sig [int_arg 1; mkarg (AFloat 1073741824) false] = false.
-
-Lemma calltyping_refuted : cd_match_skips_padding gen_codec = false -> calltyping_witness.
-Proof.
-  intro E. first [ vm_compute in E; discriminate E
-                 | unfold calltyping_witness; eexists; split; [vm_compute; reflexivity|]; repeat split; vm_compute; reflexivity ].
-Qed.
-
-(* defect (ii), DESIGN section 6 #5: `z(bs=0)` is accepted and encoding any string panics *)
-Definition bszero_witness : Prop :=
-  exists sig, abi_of_params gen_codec false [PStr (SBlock 0) 0 0 0 false] = Some sig /\
-    check_call gen_codec sig [mkarg (AStr [97; 98; 99]) false] = true /\
-    encode_args (fun s => Some s) gen_codec true sig [mkarg (AStr [97; 98; 99]) false] None = Panic P_DIV0.
-
-Lemma bszero_refuted : cd_bs_checked gen_codec = false -> bszero_witness.
-Proof.
-  intro E. first [ vm_compute in E; discriminate E
-                 | unfold bszero_witness; eexists; split; [vm_compute; reflexivity|]; split; vm_compute; reflexivity ].
-Qed.
-
-(* defect (iii), DESIGN section 6 #4: `900 S_S` as AssignOp, `$REG[10000] = 5;` *)
-Definition placement_sig : list enc := [EInt 4 true false false; EPad 4; EInt 4 true false false].
-Definition placement_builder : builder :=
-  {| b_jump := None; b_plain := [int_arg 5]; b_outputs := [mkarg (AInt 10000) true] |}.
-Definition placement_witness : Prop :=
-  exists p, from_abi (IAssignOp TInt) placement_sig = Ok p /\
-            into_vec gen_codec p placement_builder (int_arg 0) = Panic P_INDEX.
-
-Lemma placement_refuted : cd_place_with_padding gen_codec = false -> placement_witness.
-Proof.
-  intro E. first [ vm_compute in E; discriminate E
-                 | unfold placement_witness; eexists; split; vm_compute; reflexivity ].
-Qed.
+(* the repaired switches of the table (af0e0ca: arguments are matched against non-padding parameters;
+   ff0fa52: bs=0 is rejected by the signature parser; 01110a6: into_vec allocates for the positions from_abi computes) *)
+Lemma gen_match_skips_padding : cd_match_skips_padding gen_codec = true.
+Proof. vm_compute. reflexivity. Qed.
+Lemma gen_bs_checked : cd_bs_checked gen_codec = true.
+Proof. vm_compute. reflexivity. Qed.
+Lemma gen_place_with_padding : cd_place_with_padding gen_codec = true.
+Proof. vm_compute. reflexivity. Qed.
 
 (* nulless + furibug: after a furigana line, the text of a nulless furibug string reads back with the
    furigana line's (masked) bytes attached: "b" becomes "b|a" *)
@@ -103,18 +54,16 @@ Qed.
 Lemma accepted_call_never_panics_gen :
   forall (sjis_enc : list Z -> option bytes) lang_arg0 ps sig args has_regs st,
   abi_of_params gen_codec lang_arg0 ps = Some sig ->
-  cd_match_skips_padding gen_codec = true \/ trailing_pad_only sig = true ->
-  cd_bs_checked gen_codec = true \/ forallb bs_ok sig = true ->
   check_call gen_codec sig args = true ->
   is_panic (encode_args sjis_enc gen_codec has_regs sig args st) = false.
 Proof.
-  intros sjis_enc lang_arg0 ps sig args has_regs st Habi Hg Hb Hc.
+  intros sjis_enc lang_arg0 ps sig args has_regs st Habi Hc.
   unfold abi_of_params in Habi. destruct (encs_of_params gen_codec ps) as [sig'|] eqn:Ep; [|discriminate].
   destruct (validate sig' && (negb (existsb is_arg0 (firstn 1 sig')) || lang_arg0)) eqn:Ev; [|discriminate].
   injection Habi as <-. apply andb_true_iff in Ev. destruct Ev as [Hv _].
   apply (encode_no_panic sjis_enc gen_codec gen_codec_ok).
   - exact (proj1 (validate_facts _ Hv)).
-  - destruct Hb as [Hb|Hb]; [exact (params_bs_ok _ Hb _ _ Ep)|exact Hb].
+  - exact (params_bs_ok _ gen_bs_checked _ _ Ep).
   - exact (params_known _ gen_chars_covered _ _ Ep).
-  - exact (check_call_typed _ _ _ Hg Hc).
+  - exact (check_call_typed _ _ _ (or_introl gen_match_skips_padding) Hc).
 Qed.
